@@ -434,7 +434,7 @@ class _resolve_called_lambdas(ast.NodeTransformer):
 
     def visit_Call(self, node: ast.Call) -> Any:
         # Check if the function being called is a lambda
-        if isinstance(node.func, ast.Lambda):
+        if isinstance(node.func, ast.Lambda) and self._binds_by_name(node):
             lambda_node = node.func
             param_names = [a.arg for a in lambda_node.args.args]
 
@@ -451,6 +451,18 @@ class _resolve_called_lambdas(ast.NodeTransformer):
                 self._arg_map_list.pop()
                 return result
         return self.generic_visit(node)
+
+    @staticmethod
+    def _binds_by_name(node: ast.Call) -> bool:
+        """The call of a lambda is replaced by the lambda's body only when python binds each
+        argument to one plain named parameter: no `*args`, `**kwargs`, positional-only or
+        keyword-only parameters, no starred arguments. Anything else is left as a call."""
+        a = node.func.args  # type: ignore
+        if a.vararg or a.kwarg or len(a.posonlyargs) > 0 or len(a.kwonlyargs) > 0:
+            return False
+        if any(isinstance(arg, ast.Starred) for arg in node.args):
+            return False
+        return all(k.arg is not None for k in node.keywords)
 
     def _bind(self, mapping: _lambda_scope, name: str) -> str:
         """Record in `mapping` that `name` is bound by a nested lambda or comprehension. It gets
@@ -476,9 +488,19 @@ class _resolve_called_lambdas(ast.NodeTransformer):
         capture a name that is free in an argument we are substituting."""
         mapping = _lambda_scope()
         new_args = copy.copy(node.args)
+        # Default values are evaluated where the lambda is written
+        new_args.defaults = [self.visit(d) for d in node.args.defaults]
+        new_args.kw_defaults = [
+            self.visit(d) if d is not None else None for d in node.args.kw_defaults
+        ]
         new_args.args = []
         for a in node.args.args:
             new_args.args.append(ast.arg(arg=self._bind(mapping, a.arg), annotation=None))
+        # The other kinds of parameters keep their names (they can be given by keyword)
+        others = node.args.posonlyargs + node.args.kwonlyargs
+        others += [p for p in (node.args.vararg, node.args.kwarg) if p is not None]
+        for a in others:
+            mapping[a.arg] = ast.Name(a.arg, ast.Load())
         self._arg_map_list.append(mapping)
         new_body = self.visit(node.body)
         self._arg_map_list.pop()
